@@ -19,7 +19,7 @@ import (
 
 // C19Event is one step of an Avahi life-cycle script.
 type C19Event struct {
-	K string `json:"k"` // disconnect | available | announce | unannounce | shutdown | add | remove | advance
+	K string `json:"k"` // disconnect | available | announce | unannounce | shutdown | add | addheld | remove | advance
 	B bool   `json:"b,omitempty"`
 	N int    `json:"n,omitempty"`
 	D int64  `json:"d,omitempty"`
@@ -126,6 +126,8 @@ func runC19(sc C19Script) *c19Result {
 			return
 		}
 		// browse results arriving now are reported
+		daemon.ReleaseResolve()
+		synctest.Wait()
 		probeNo++
 		name := fmt.Sprintf("probe-%d", probeNo)
 		daemon.Emit(avahi.Service{Interface: 2, Name: name, Type: "_ship._tcp", Domain: "local", Host: "h.local", Address: "192.168.1.9", Port: 4711,
@@ -147,6 +149,11 @@ func runC19(sc C19Script) *c19Result {
 	outage := func() bool { return !daemon.View().Connected }
 	for i, ev := range sc.Events {
 		where := fmt.Sprintf("event %d (%s)", i, ev.K)
+		if !(i > 0 && sc.Events[i-1].K == "addheld" && (ev.K == "shutdown" || ev.K == "disconnect" || ev.K == "unannounce" || ev.K == "announce")) {
+			// only the event right after "addheld" runs while the resolution is pending
+			daemon.ReleaseResolve()
+			synctest.Wait()
+		}
 		switch ev.K {
 		case "disconnect":
 			daemonUp = ev.B
@@ -188,6 +195,9 @@ func runC19(sc C19Script) *c19Result {
 			done := make(chan struct{})
 			go func() { prov.Shutdown(); close(done) }()
 			synctest.Wait()
+			// a browse result that is being resolved (slow D-Bus round trip) now gets its answer
+			daemon.ReleaseResolve()
+			synctest.Wait()
 			select {
 			case <-done:
 			default:
@@ -198,6 +208,18 @@ func runC19(sc C19Script) *c19Result {
 			desired = nil
 			a, b, c, d := daemon.Counters()
 			cntAtShutdown = [4]int{a, b, c, d}
+		case "addheld":
+			// a service appears and its resolution is slow: the listener is inside ResolveService
+			// while the following event happens
+			if outage() {
+				res.Outage = true
+			}
+			daemon.ReleaseResolve()
+			if v := daemon.View(); v.Connected && v.LiveBrowsers > 0 && !shutdown {
+				daemon.HoldNextResolve()
+			}
+			go daemon.Emit(avahi.Service{Interface: 2, Name: fmt.Sprintf("held-%d", ev.N), Type: "_ship._tcp", Domain: "local", Host: "p.local",
+				Address: "192.168.1.21", Port: 4713, Txt: [][]byte{[]byte("txtvers=1")}}, false)
 		case "add", "remove":
 			if outage() {
 				res.Outage = true
@@ -208,11 +230,15 @@ func runC19(sc C19Script) *c19Result {
 			time.Sleep(time.Duration(ev.D))
 		}
 		synctest.Wait()
-		check(where)
+		if !daemon.IsHolding() {
+			check(where)
+		}
 		if res.Violation != "" {
 			break
 		}
 	}
+	daemon.ReleaseResolve()
+	synctest.Wait()
 	// the daemon comes back for good: the provider must recover
 	if res.Violation == "" {
 		if !daemonUp {
@@ -227,6 +253,8 @@ func runC19(sc C19Script) *c19Result {
 	if !shutdown {
 		done := make(chan struct{})
 		go func() { prov.Shutdown(); close(done) }()
+		synctest.Wait()
+		daemon.ReleaseResolve()
 		synctest.Wait()
 		select {
 		case <-done:
@@ -290,7 +318,7 @@ func genC19(t *rapid.T) C19Script {
 				ev = C19Event{K: "shutdown"}
 			}
 		case 8:
-			ev = C19Event{K: "add", N: rapid.IntRange(0, 3).Draw(t, "peer")}
+			ev = C19Event{K: rapid.SampledFrom([]string{"add", "add", "addheld"}).Draw(t, "addKind"), N: rapid.IntRange(0, 3).Draw(t, "peer")}
 		case 9:
 			ev = C19Event{K: "remove", N: rapid.IntRange(0, 3).Draw(t, "peer")}
 		default:
